@@ -517,7 +517,7 @@ func joinName(j c2.JoinType) string {
 
 func init() {
 	defProp("C05",
-		"rapid-generated simple polygon sets: 1-3 components, each a star-shaped outer (3-14 vertices, radii in [s,2s], s from 30 to 2e7) with an optional star-shaped hole, verified exactly inside the generator (simple, hole strictly inside, boundaries disjoint), either global orientation, 1-2 groups (ClipperOffset object) or InflatePaths64; delta log-uniform in [0.6, 3s] of both signs plus the exact values +-0.49, +-0.5, 0.1, -0.3, 0; 4 join types; miter limits {1,1.5,2,3,10}; arc tolerance default or in [0.25, delta/4]; oracle: exact winding of the source region R and float distance d to its boundary at probes on rings along edge normals / around vertices at (|delta|-tol)/2, |delta|-tol-0.7, |delta|+tol+0.7, k|delta|+tol+1.5, 1.4(k|delta|+tol): growing: R and points within |delta|-tol along an edge normal inside, points farther than k|delta|+tol outside, Round: d<|delta|-tol inside; shrinking: mirror statements; over-shrinking gives []; |delta|<0.5 returns the input; canonical vertex rules and winding in {0,s}; non-trivial = concave vertex or hole, and both must-be-inside and must-be-outside probes were judged",
+		"rapid-generated simple polygon sets: 1-3 components, each a star-shaped outer (3-14 vertices), a comb or a smooth 150-420 vertex ellipse (radii in [s,2s], s from 30 to 2^37) with an optional star-shaped or smooth hole, verified exactly inside the generator (simple, hole strictly inside, boundaries disjoint), either global orientation, 1-2 groups (ClipperOffset object, PreserveCollinear / ReverseSolution set in a quarter of the cases each) or InflatePaths64; delta log-uniform in [0.6, min(3s, 6e7)] of both signs plus the exact values +-0.49, +-0.5, 0.1, -0.3, 0; 4 join types; miter limits {1,1.5,2,3,10}; arc tolerance default or in [0.25, delta/4]; oracle: exact winding of the source region R and float distance d to its boundary at probes on rings along edge normals / around vertices at (|delta|-tol)/2, |delta|-tol-0.7, |delta|+tol+0.7, k|delta|+tol+1.5, 1.4(k|delta|+tol): growing: R and points within |delta|-tol along an edge normal inside, points farther than k|delta|+tol outside, Round: d<|delta|-tol inside; shrinking: mirror statements; over-shrinking gives []; |delta|<0.5 returns the input; canonical vertex rules and winding in {0,s}; non-trivial = concave vertex or hole, and both must-be-inside and must-be-outside probes were judged",
 		[]string{"tol = 2 + effective arc tolerance + 0.01 guard; the effective arc tolerance is the given one or, when none is given, the library's default |delta|/500",
 			"float distances; |coordinates| <= 2^27 so the absolute error is far below the guard"},
 		drawC05, judgeC05)
